@@ -183,6 +183,43 @@ func execOp(line string) string {
 		return execUDFTask(t[1], t[2])
 	case "live":
 		return execLive(t[1], t[2])
+	case "tagscopy":
+		// `tagscopy <n> <key>`: models.Tags.Copy() of a nil map (n = -1), an empty map (0) or a map with n entries
+		// k0..k<n-1>, then an assignment to <key> in the copy (what default().tag, eval().tags, alert's levelTag/idTag,
+		// sideload().tag and the loopback do with it). Observation: `<nil|map> <len> <set|panic> <len after>`.
+		if len(t) != 3 {
+			return "badop"
+		}
+		n, err := strconv.Atoi(t[1])
+		if err != nil || n < -1 || n > 64 {
+			return "badop"
+		}
+		var src models.Tags
+		if n >= 0 {
+			src = models.Tags{}
+			for i := 0; i < n; i++ {
+				src[fmt.Sprintf("k%d", i)] = "v"
+			}
+		}
+		cp := src.Copy()
+		kind := "map"
+		if cp == nil {
+			kind = "nil"
+		}
+		l0 := len(cp)
+		res := func() (r string) {
+			defer func() {
+				if recover() != nil {
+					r = "panic"
+				}
+			}()
+			cp[un(t[2])] = "w"
+			return "set"
+		}()
+		if (n <= 0 && len(src) != 0) || (n > 0 && len(src) != n) {
+			return "X source-written"
+		}
+		return fmt.Sprintf("%s %d %s %d", kind, l0, res, len(cp))
 	case "jsoncover":
 		return "-"
 	case "jsoneval":
@@ -678,6 +715,20 @@ var liveNodes = map[string]string{
 	"stateDuration": "stream|from().measurement('m')|stateDuration(lambda: %s)@sink()",
 	"alert":         "stream|from().measurement('m')|alert().crit(lambda: %s).topic('c05live')@sink()",
 	"boom":          "stream|from().measurement('m')@boom()",
+	// nodes that copy a point's tag set and write into the copy, drop tags, or regroup by them: the shape of the
+	// point (no tags at all, an empty tag value, a tag the node is about to write) is the input here
+	"defaultTag": "stream|from().measurement('m')|default().tag('t', 'v').tag('host', 'h')@sink()",
+	"evalTags":   "stream|from().measurement('m')|eval(lambda: string(\"canary\")).as('x').tags('x').keep()@sink()",
+	"deleteTag":  "stream|from().measurement('m')|delete().tag('host').tag('nosuch')@sink()",
+	"groupByTag": "stream|from().measurement('m')|groupBy('host', 't')|default().tag('t', 'v')@sink()",
+	"alertTag":   "stream|from().measurement('m')|alert().crit(lambda: \"canary\" >= 0).levelTag('lvl').idTag('aid').topic('c05livetag')@sink()",
+}
+
+// shapes of the BAD point other than its fields: nil = the ordinary {host: a}
+var liveBadTags = map[string]map[string]string{
+	"notags":      {},
+	"emptytagval": {"host": ""},
+	"hastarget":   {"host": "a", "t": "w", "x": "1", "lvl": "x", "aid": "y"},
 }
 
 // expression (boolean), canary fields (expression is true), bad fields
@@ -700,6 +751,10 @@ var liveBad = map[string]struct {
 	"durzero":  {`1m / "v" > 1s`, imodels.Fields{"v": int64(1)}, imodels.Fields{"v": int64(0)}},
 	"regex":    {`"v" =~ /a/`, imodels.Fields{"v": "a"}, imodels.Fields{"v": int64(1)}},
 	"none":     {`"v" > 0`, imodels.Fields{"v": int64(1)}, imodels.Fields{"v": int64(2)}},
+	// benign fields, unusual tag set (liveBadTags)
+	"notags":      {`"v" > 0`, imodels.Fields{"v": int64(1)}, imodels.Fields{"v": int64(2), "canary": int64(0)}},
+	"emptytagval": {`"v" > 0`, imodels.Fields{"v": int64(1)}, imodels.Fields{"v": int64(2), "canary": int64(0)}},
+	"hastarget":   {`"v" > 0`, imodels.Fields{"v": int64(1)}, imodels.Fields{"v": int64(2), "canary": int64(0)}},
 }
 
 var liveSeq int
@@ -744,10 +799,13 @@ func execLive(node, badk string) string {
 		for k, v := range f {
 			g[k] = v
 		}
+		tags := map[string]string{"host": "a"}
 		if canary {
 			g["canary"] = int64(1)
+		} else if bt, ok := liveBadTags[badk]; ok {
+			tags = bt
 		}
-		p, err := imodels.NewPoint("m", imodels.NewTags(map[string]string{"host": "a"}), g, time.Unix(ts, 0).UTC())
+		p, err := imodels.NewPoint("m", imodels.NewTags(tags), g, time.Unix(ts, 0).UTC())
 		if err != nil {
 			panic(err)
 		}
@@ -771,7 +829,7 @@ func execLive(node, badk string) string {
 			}
 			for _, m := range t.Rec.Get(k) {
 				if pm, ok := m.(edge.PointMessage); ok {
-					if _, c := pm.Fields()["canary"]; c || !onlyCanary {
+					if v, c := pm.Fields()["canary"]; (c && v == int64(1)) || !onlyCanary {
 						n++
 					}
 				}
